@@ -1,6 +1,7 @@
 package main
 
 import (
+	"path/filepath"
 	"fmt"
 	"go/types"
 	"strings"
@@ -277,6 +278,37 @@ func init() {
 		}
 		ex.crashPoint()
 		return Iface{}
+	})
+	// filepath.Clean on a symbolic path: decided into the shapes whose result is known exactly (a plain word, a plain
+	// word with one trailing separator, a plain word behind "./"); every other shape ends the path (reported as cut)
+	reg("path/filepath.Clean", func(ex *Exec, fn *ssa.Function, args []Value, site string) Value {
+		if s, ok := args[0].(string); ok {
+			return filepath.Clean(s)
+		}
+		t := strTerm(args[0])
+		plain := func(x *Term) *Term { return mkStrOp("str.in_re", SBool, x, mkRaw(plainRe)) }
+		n := mkStrOp("str.len", SInt, t)
+		body := mkStrOp("str.substr", SStr, t, mkInt(0), mkArith("-", n, mkInt(1)))
+		rest := mkStrOp("str.substr", SStr, t, mkInt(2), mkArith("-", n, mkInt(2)))
+		alts := []*Term{
+			plain(t),
+			mkAnd(mkSuffixOf(mkStr("/"), t), plain(body)),
+			mkAnd(mkPrefixOf(mkStr("./"), t), plain(rest)),
+		}
+		var none []*Term
+		for _, a := range alts {
+			none = append(none, mkNot(a))
+		}
+		alts = append(alts, mkAnd(none...))
+		switch ex.choose(alts) {
+		case 0:
+			return lower(t)
+		case 1:
+			return lower(body)
+		case 2:
+			return lower(rest)
+		}
+		panic(pathAbort{"unsupported: filepath.Clean on this symbolic shape"})
 	})
 	reg("path/filepath.Join", func(ex *Exec, fn *ssa.Function, args []Value, site string) Value {
 		parts := sliceVals(args[0])
